@@ -260,7 +260,7 @@ pub fn write_evidence(ctx: &Ctx, run: &Run, violations: usize, known: &[String])
         "level": run.level,
         "coverage": cov,
         "assumptions": run.assumptions,
-        "wall_s": (ctx.start.elapsed().as_secs_f64() * 1000.0).round() / 1000.0,
+        "wall_s": (crate::core::clock::real_elapsed(&ctx.start).as_secs_f64() * 1000.0).round() / 1000.0,
         "violations": violations,
     });
     let path = dir.join(format!("{}.json", ctx.id));
